@@ -129,6 +129,11 @@ static void run() {
     else if (c == "rpadclip") { int64_t t = nint(), axis = nint(); ContentPtr x = pop(); stack.push_back(x.get()->rpad_and_clip(t, axis, 0)); }
     else if (c == "combinations") { int64_t n = nint(); bool rep = nint() != 0; int64_t axis = nint(); ContentPtr x = pop();
       stack.push_back(x.get()->combinations(n, rep, util::RecordLookupPtr(nullptr), noparams, axis, 0)); }
+    else if (c == "broadcast") { int64_t n = nint(); Index64 o = rindex<int64_t>(n); ContentPtr x = pop();
+      if (ListOffsetArray64* r = dynamic_cast<ListOffsetArray64*>(x.get())) stack.push_back(r->broadcast_tooffsets64(o));
+      else if (ListArray64* r = dynamic_cast<ListArray64*>(x.get())) stack.push_back(r->broadcast_tooffsets64(o));
+      else if (RegularArray* r = dynamic_cast<RegularArray*>(x.get())) stack.push_back(r->broadcast_tooffsets64(o));
+      else throw std::runtime_error("akrun: broadcast on a non-list node"); }
     else if (c == "merge") { ContentPtr b = pop(); ContentPtr a = pop(); stack.push_back(a.get()->merge(b)); }
     else if (c == "mergemany") { int64_t k = nint(); ContentPtrVec cs((size_t)k); for (int64_t j = k - 1; j >= 0; j--) cs[(size_t)j] = pop(); ContentPtr a = pop(); stack.push_back(a.get()->mergemany(cs)); }
     else if (c == "fillna") { ContentPtr v = pop(); ContentPtr a = pop(); stack.push_back(a.get()->fillna(v)); }
